@@ -85,6 +85,9 @@ def inv_claims(w, cv, P, part, tag, force=False):
     w._psi = psi
     M, RHS = cv._BCsTerm
     row = w.apply(M, psi, G) - w.vec(RHS, G)
+    if (a, s) == (0, 0):
+        # the cached boundary term has NO equation in interior cells (terms are accumulated onto a copy of it)
+        out.append(('%s:cached_term_has_no_interior_rows' % tag, w.eq(w.apply(M, psi, P) - w.vec(RHS, P), 0)))
     pg, pq = w.at(psi, G), w.at(psi, Q)
     if pat[a] == 'n':
         lo, hi = (vg, vq) if s == 0 else (vq, vg)
@@ -427,3 +430,45 @@ class UpdateValue(_StateOb):
             return [('own_storage_dirty_other_untouched', self.flag(w, ok))]
         return [('values_taken_over', w.eq(w.at(cv._value, P), w.at(S['before'], P))),
                 ('other_unchanged', w.eq(w.at(other._value, P), w.at(S['before'], P)))]
+
+
+def _mk_pair_classes():
+    """{Inv(cv) and Inv(cv')} solve(cv) {Inv(cv')} for a second variable cv' DERIVED from cv (copy(), arithmetic
+    result) or from which cv was derived: solving one of them must not disturb the cached boundary term / ghost layer
+    of the other (e.g. through storage the two still share).  The terms include vector terms and a (matrix, vector)
+    pair, so an in-place accumulation onto shared storage would show."""
+    for how in ('copy', 'arithmetic'):
+        for direction in ('solve_original', 'solve_derived'):
+            class PairKeepsInv(_StateOb):
+                name = 'solvePDE/derived_variable_keeps_Inv{%s,%s}' % (how, direction)
+                props = ('C09', 'C14', 'C04')
+                grids = ('Grid1D', 'Grid2D', 'Grid3D')
+
+                def setup(self, w, how=how, direction=direction):
+                    cv = make_prestate(w, 'phi0', 'clean')
+                    other = cv.copy() if how == 'copy' else (cv * 2.0)
+                    z = _term_zoo(w)
+                    dt = w.scalar('dt', 'pos')
+                    solved, kept = (cv, other) if direction == 'solve_original' else (other, cv)
+                    Mt, Rt = src_.transientTerm(solved, dt, 1.0)
+                    before = w.np.copy(kept._value)
+                    pde.solvePDE(solved, [(Mt, Rt), -z['Md'], z['Ms'], z['Rg']])
+                    return dict(kept=kept, solved=solved, before=before)
+
+                def parts(self, w):
+                    return ['flags', 'interior'] + [(a, s) for a in range(w.nd) for s in (0, 1)]
+
+                def claims(self, w, S, P, part):
+                    kept = S['kept']
+                    if part == 'flags':
+                        return [('other_variable_still_clean', self.flag(w, is_clean(kept) and hasattr(kept, '_BCsTerm')))]
+                    if part == 'interior':
+                        return [('other_variable_values_untouched', w.eq(w.at(kept._value, P), w.at(S['before'], P)))]
+                    return inv_claims(w, kept, P, part, 'other')
+            PairKeepsInv.__name__ = 'PairKeepsInv_%s_%s' % (how, direction)
+            PairKeepsInv.__qualname__ = PairKeepsInv.__name__
+            PairKeepsInv.__module__ = __name__
+            globals()[PairKeepsInv.__name__] = PairKeepsInv
+
+
+_mk_pair_classes()
